@@ -88,6 +88,11 @@ CHECKS = {
   text="For each of the 17 predicates the complete relation over a finite domain (multi-byte characters, lists, integers near the 64-bit limits) is enumerated by brute force and every admissible call pattern is compared with the matching subset of the relation, each tuple exactly once - which also yields the monotonicity clause of the property.",
   note="Trusted: ref/relations (brute-force definitions in terms of runes and positions); member/select answer once per occurrence.",
   design="DESIGN.md §3 C16"),
+ "C06": dict(
+  technique="bounded-exhaustive enumeration of terms (every leaf class x every operator/functor context to depth 2, all terms of depth <= 2 in every operator table reached by op/3 over three names, a number grid over every binade) built without the reader, written by the real writer and read back by the real reader under the same table and flags; structural comparison, floats by bit pattern",
+  text="Every term of the enumerated families is constructed through atom_codes/2, =../2 and placeholders (never through the reader), written with each of writeq, write_canonical, write_term quoted / quoted+ignore_ops under each double_quotes flag, and the text followed by ' .' is read with read_term/2 in the same interpreter; the term read must be identical up to variable renaming. Operator tables are reached by op/3 (21 single definitions on two names, and pairs); numbers go there and back through number_codes/number_chars over a grid of every (8th) binade x 64 mantissa patterns x sign and the neighbours of every power of ten.",
+  note="Trusted: the term builder (atom_codes/2, =../2, placeholders - checked by C15/C16). '$VAR'(N) terms are excluded as the property states.",
+  design="DESIGN.md §3 C06"),
  "C07": dict(
   technique="bounded-exhaustive enumeration of the complete boundary-value grid (all functors x all operand pairs, all depth-2 trees over a reduced grid) on the real evaluator, each case compared with a math/big + IEEE-754 reference model",
   text="Every evaluable functor of the statement is run on the complete cross product of an integer and a float boundary grid (all int/float combinations), all shift counts, all six comparisons, and all depth-2 trees over a reduced grid; each result is compared with an exact reference (math/big integers, IEEE-754 doubles). Exhaustive within the grid: a wrong boundary test, a float detour or a sign slip in any of the per-type helpers shows up as a concrete expression.",
